@@ -339,3 +339,45 @@ def check(run, prog, tier):
                    what="%s stores a value into iflags that is not cut down to the caller-settable bits: %s" % (f0.name, why))
             k += 1
     run.need(ng >= 10, "stores into iflags (found %d)" % ng)
+
+
+    # ---- C12-h the scan bound never shrinks under the scan cursor
+    run.rule("C12-h", "get_user_command() keeps its round-robin position in a static between calls and inspects max_users slots from there, wrapping only below 0: the bound max_users never decreases (no --/-=, and an assignment only under a test that the new value is larger), otherwise the cursor is left above the table and whole cycles look at empty slots while connected users wait", 1)
+    nmu = 0
+    for f0 in sorted(prog.functions(), key=lambda x: (x.file, x.line)):
+        k = 0
+        for b, i, n in f0.nodes():
+            tgt = None
+            if n.get("k") == "Asg":
+                tgt = strip(n["L"])
+            elif n.get("k") == "Un" and n.get("op") in ("++", "--"):
+                tgt = strip(n["e"])
+            if tgt is None or tgt.get("k") != "Ref" or tgt.get("n") != "max_users" or tgt.get("d") not in ("global", "static"):
+                continue
+            nmu += 1
+            run.saw(f0)
+            verdict, why = None, "`%s` (line %s) is not in a form this rule reads" % (show(n)[:50], n.get("l"))
+            if n.get("k") == "Un":
+                verdict = n.get("op") == "++"
+                why = "`%s`" % show(n)
+            elif n.get("op") == "+=":
+                verdict = (const_val(n["R"]) or 0) > 0
+                why = "`%s`: grows by a positive constant" % show(n)[:50]
+            elif n.get("op") == "-=":
+                verdict, why = False, "`%s`" % show(n)[:50]
+            elif n.get("op") == "=":
+                r = strip(n["R"])
+                if r.get("k") == "Bin" and r.get("op") == "+" and any(strip(a).get("n") == "max_users" and (const_val(b_) or 0) > 0 for a, b_ in ((r["L"], r["R"]), (r["R"], r["L"]))):
+                    verdict, why = True, "`%s`: grows by a positive constant" % show(n)[:50]
+                elif const_val(r) is not None and any(op_ in ("false",) and strip(l_).get("n") == "all_users" for op_, l_, r_ in [atom_of(c, t) for c, t, B in cfgq.guards(f0, b.id)]):
+                    verdict, why = True, "`%s` while the table does not exist yet (max_users is 0 there)" % show(n)[:40]
+                else:
+                    g = [atom_of(c, t) for c, t, B in cfgq.guards(f0, b.id)]
+                    grows = any(op in (">", ">=") and show(strip(l)) == show(r) and strip(rr).get("n") == "max_users" for op, l, rr in g) or any(op in ("<", "<=") and strip(l).get("n") == "max_users" and show(strip(rr)) == show(r) for op, l, rr in g)
+                    if grows:
+                        verdict, why = True, "`%s` under a test that the new value is larger" % show(n)[:50]
+            if verdict is False:
+                why += " (line %s) lowers max_users: the cursor of get_user_command() can be left above the table" % n.get("l")
+            run.ob("C12-h", "bound:%s:%d" % (f0.name, k), verdict, why, f0.file, n.get("l"), f0.name, what="%s lowers the scan bound max_users while get_user_command() keeps its position across calls" % f0.name)
+            k += 1
+    run.need(nmu >= 1, "stores to max_users (found %d)" % nmu)
